@@ -45,7 +45,7 @@ LEVEL_TEXT = (
     "function it names; (V8) both copies of the array-read mux tree choose the higher-index element when the index bit is set; (V9) "
     "write-back through tuple / struct accessors uses the offset and width that were used for reading. Arithmetic is C03, panics "
     "C02, variable merging C14, optimisations C04, the register form C10."
-    " Cross-references V16 (accepted matches are exhaustive: C17 T14 / T15) and V17 (first matching arm wins: C08 M1).")
+    " Cross-references V16 (accepted matches are exhaustive: C17 T14 / T15) and V17 (first matching arm wins: C08 M1). Since the later hunter rounds: for-each runs once per element of the array's type, not per group of wires (V3 count clause); struct literal field values are lowered in the order in which they are written and the parser keeps that order (V4 evaluation-order clauses).")
 LEVEL_NOTE = "Trusted: rustc MIR; push_mux(s, a, b) selects a when s is set (assumption shared with C02 / C14)."
 EXPLANATION = ("Functions analysed: TypedExpr::compile pruned to If, Op(ShortCircuitAnd/Or), TupleAccess, StructAccess, ArrayLiteral, TupleLiteral, "
                "StructLiteral, ArrayRepeatLiteral(Const), EnumLiteral, FnCall, ArrayAccess; TypedStmt::compile pruned to ForEachLoop and VarAssign; compile_block.")
